@@ -33,7 +33,7 @@ def plan(tier, seed, rng, scale):
         for rcmode in (True, False):
             for kind in ('pieces', 'all', 'nothing', 'ssrc'):
                 descs.append({'k': k, 'rc': rcmode, 'kind': kind, 'seed': rng.getrandbits(32)})
-    n = int((700 if tier == 'quick' else 16000) * scale)
+    n = int((3000 if tier == 'quick' else 25000) * scale)
     for i in range(n):
         descs.append({'k': rng.choice(G.ALL_K), 'rc': rng.random() < 0.65,
                       'kind': rng.choice(['pieces'] * 6 + ['all', 'nothing', 'ssrc']), 'seed': rng.getrandbits(32)})
